@@ -672,6 +672,30 @@ def search(ctx):
         failing.append({"what": "generator degenerate", "sig": ["C04", "generator-degenerate"], "input": st["random"],
                         "expected": "<=90% infinite, >=5% simplifiable", "observed": st["random"]})
 
+    # -- history: the SAME set of sequences under different domains / lengths and repeated calls in ONE process
+    #    (the property is about the arguments of each call; anything remembered between calls must not matter)
+    t0 = time.time()
+    nh = 0
+    for _ in range(ctx.n(120, 1500)):
+        n = rng.randint(1, 4)
+        S = rand_set(rng, [0, 1], n, 6)
+        for dom in ([0, 1], [0, 1, 2], [0, 1], [1, 0, 2, 3], [0, 1, 2]):
+            case = jcase("generate", dom, n, S)
+            nh += 1
+            ev += 1
+            try:
+                r = check_case(case)
+            except Exception as e:
+                r = {"what": "generate:raises", "sig": ["C04", "raises"], "input": case, "observed": vlib.exc_sig(e)}
+            if r:
+                r["what"] += " (in a history: same sequences generated before under another domain in this process)"
+                r["sig"] = ["C04", "history-dependent"]
+                r["input"] = {"history": [jcase("generate", d, n, S) for d in ([0, 1], [0, 1, 2], [0, 1], [1, 0, 2, 3], [0, 1, 2])]}
+                if len(failing) < 8:
+                    failing.append(r)
+                break
+    st["history"] = {"calls": nh, "seconds": round(time.time() - t0, 1)}
+
     # -- outside the claimed domain: recorded, not flagged
     outside = []
     for (dom, n, S) in [([0, 1], 2, [(), ((0, 0), (1, 1))]), ([0, 1], 2, [(), ((0, 0),)]), ([0, 1], 0, [()]), ([0, 1], 2, [()]),
@@ -1014,6 +1038,13 @@ def run(ctx):
 
 def replay(ctx, data):
     case = data.get("input", data) if isinstance(data, dict) else data
+    if isinstance(case, dict) and "history" in case:
+        for c in case["history"]:
+            r = check_case(c)
+            if r:
+                r["sig"] = ["C04", "history-dependent"]
+                return r
+        return None
     if not isinstance(case, dict) or "kind" not in case:
         r = search(ctx)[0]
         return r[0] if r else None
